@@ -4,7 +4,7 @@ from vcore import Case, Harness, SDK_INCLUDES, sdk_sources
 
 ID = 'C17'
 GEN = ['MetricsTemporal']
-LEAN_TARGETS = ['OtelVerif.Props.C17']
+LEAN_TARGETS = ['OtelVerif.Props.C17', 'OtelVerif.Props.C17Meter']
 THEOREMS = ['Otel.C17.' + t for t in (
     # ObservableRegistry: every history of AddCallback / RemoveCallback / instrument destruction
     'invocations_count', 'registered_once_invoked_once', 'removed_never_invoked', 'destroyed_instrument_never_invoked',
@@ -18,6 +18,9 @@ THEOREMS = ['Otel.C17.' + t for t in (
     'before_lt_since', 'linv_run', 'gauge_reports_latest', 'gauge_points_nodup', 'gauge_reports_latest_sync',
     'gauge_reports_latest_observable_cycle', 'gauge_reports_this_cycle',
     'gen_async_facts',
+    # the meter: projection of a meter history on one observable instrument (Props/C17Meter.lean)
+    'foldl_observe_sums', 'meter_sum_storage', 'meter_sum_output', 'recsFor_length',
+    'meter_observable_cumulative', 'meter_observable_delta',
 )]
 _SRCS = sdk_sources('common', 'resource', 'version', 'metrics')
 HARNESSES = [Harness('s_c17', ['harness/s_c17.cc'], sdk_srcs=_SRCS, includes=SDK_INCLUDES),
@@ -352,9 +355,9 @@ LEVEL_NOTE = ('Trusted: Lean kernel (axioms propext/Quot.sound/Classical.choice 
               'otherwise the second Record overwrites the first delta (D21_witness; the unchanged code behaves so, semantics open); '
               'sample times of last-value aggregations strictly increase from one record to the next (the real clock can tie: the '
               'harness waits for the clock to advance between operations, the baseline marks the last-value tests flaky). '
-              'Partial: the observable-counter and gauge theorems are stated per storage (one instrument, one stream) over the cycles '
-              'that storage sees; that Meter::Collect feeds each storage exactly the measurements of the callbacks registered on its '
-              'instrument is part of the executable model and of the differential tie, not a separate theorem. A negative '
+              'Partial: the gauge theorems are stated per storage over the records / cycles that storage sees (for observable counters '
+              'the lifting to meter histories is proved: meter_sum_storage, meter_observable_cumulative/_delta); that the meter '
+              'stamps gauge samples with a strictly increasing clock is by construction of the model (clock + 1), not a theorem. A negative '
               '"total" on a monotonic observable counter is recorded as 0 (modelled, excluded from the value clauses). View '
               'attribute filters are ignored on the observable path (D22, belongs to C08/C19). FP rounding and int64 overflow are not generated.')
 DESIGN_REF = 'DESIGN.md section 4, C17; Appendix D'
